@@ -393,6 +393,8 @@ PROPS['C10']['contracts'] = PROPS['C10']['contracts'] + RECORDS
 PROPS['C09']['contracts'] = PROPS['C09']['contracts'] + RECORDS[:4]
 PROPS['C01']['contracts'] = PROPS['C01']['contracts'] + RECORDS[:4]
 PROPS['C14']['contracts'] = PROPS['C14']['contracts'] + RECORDS[4:]
+# "encoders refuse constructed values that violate theirs": the CHOICE encoder consults the type's own constraints
+PROPS['C14']['contracts'] = PROPS['C14']['contracts'] + [(E, 'ber.encoder::ChoiceEncoder.encodeValue[value-object]')]
 PROPS['C10']['level_text'] += (' Completeness is a discharged contract on the component loops of the real constructed decoder '
                                '(definite and indefinite): for any schema (any number of components, any OPTIONAL/DEFAULT '
                                'pattern) a normal exit implies every mandatory component was assigned in this call, SEQUENCE '
